@@ -262,10 +262,29 @@ class PathToken(TokenT):
                 if RE_PROPERTY.fullmatch(segment):
                     buf.append(f".{segment}")
                 else:
-                    buf.append(f"[{segment!r}]")
+                    buf.append(f"[{_quote_segment(segment)}]")
             else:
                 buf.append(f"[{segment}]")
         return "".join(buf)
+
+
+def _quote_segment(segment: str) -> str:
+    """Return the source text of a quoted path segment as a single quoted string.
+
+    _segment_ still contains the escape sequences it was written with, apart from
+    escaped single quotes, so we keep those as they are and only fix up quotes.
+    """
+    buf: list[str] = []
+    it = iter(segment)
+    for ch in it:
+        if ch == "\\":
+            escaped = next(it, "")
+            buf.append('"' if escaped == '"' else ch + escaped)
+        elif ch == "'":
+            buf.append("\\'")
+        else:
+            buf.append(ch)
+    return f"'{''.join(buf)}'"
 
 
 @dataclass(kw_only=True, slots=True)
